@@ -764,5 +764,16 @@ func c18Probe(r *kit.Run, interp *prolog.Interpreter, out *kit.SimWriter, model 
 			return false
 		}
 	}
+	// what writeq prints for a nested infix term under this table, read under this table, is that term again: the writer
+	// brackets by the priority and specifier the table has now, the reader reads by them
+	if has("infix") {
+		for _, t := range []string{fmt.Sprintf("%s(%s(1, 2), 3)", q, q), fmt.Sprintf("%s(1, %s(2, 3))", q, q)} {
+			text := wr("writeq(" + t + ")")
+			if err := interp.QuerySolution("X = (" + text + "), X == " + t + ".").Err(); err != nil {
+				r.Fail("write-uses-other-table", "write-read-round-trip:infix", "writeq(%s) printed %q, which read back under the same table is not that term: %s (history: %s)", t, text, kit.CanonErr(err), strings.Join(history, ", "))
+				return false
+			}
+		}
+	}
 	return true
 }
